@@ -1,5 +1,6 @@
 """C13 - track selection restricts the parse and tracks do not interfere."""
 from vf.runner import Ob
+from .common import _sync_section, _two_maps, _e2e  # noqa: F401
 from .common import *  # noqa: F401,F403
 
 LEVEL = "model_checking"
@@ -26,6 +27,11 @@ def obligations(tier):
                   bounds="symbolic body lines of any content (header-like lines included) stay inside their own section"))
     obs.append(Ob("C13.real_parsers", "CH", "harness.h_chart", "select_real", 900, funcs=(CH_ + "Chart.from_file", "chartparse.instrument.InstrumentTrack.from_chart_lines"),
                   bounds="real parsers: selected parse equals the unrestricted parse restricted; an invalid unselected section is never parsed"))
+    for p in range(4):
+        obs.append(Ob(f"C13.route_twice.part{{p}}", "CH", "harness.h_chart", "route_twice", 900, {{"VF_NSEC": 1, "VF_NPARTS": 16, "VF_PART": p}},
+                      funcs=("chartparse.chart.Chart.from_file",),
+                      bounds="two parses in one process: a restricted parse (selection: the file's pair and/or an absent pair) of a file with one track section, then a parse of another "
+                             "file with a different track section and any selection form: the second result is what it would be as a first parse (3 of 48 names per partition, 6 orders)"))
     return obs
 
 
